@@ -68,10 +68,12 @@ class ParProp(props.BaseProp):
     diff_kind = "counterexample"
     trusted_extra = [
         "rayon's implementation of the indexed collect, work stealing and memory ordering are NOT verified: "
-        "modelled by Model/Par.v (schedule = order of execution of the work items) and probed per run",
+        "modelled by Model/Par.v (schedule = order of execution of the work items) and Model/ParFns.v (failing items: "
+        "rayon::join re-raises its first closure's panic) and probed per run",
         "tools/gen_parsites.py (tokenizer-level scan of the crate for rayon call sites, unsafe and interior mutability)",
-        "that the closures passed to rayon are pure functions of (&Graph, item) is supported by the source scan and "
-        "by bit-for-bit testing, not proved",
+        "that the closures passed to rayon are the pure functions of (&Graph, item) transcribed in Model/ParFns.v is "
+        "supported by the source scan, the C04/C05/C06 correspondence of the per-source models and bit-for-bit "
+        "testing, not proved",
     ]
     rule = ("graph cases: random directed / undirected graphs with threshold+1 .. 60 nodes (threshold = the extracted "
             "`number_of_nodes() > K`, currently 20), node names inserted in shuffled order, edge density 1.2-4 edges "
@@ -83,7 +85,10 @@ class ParProp(props.BaseProp):
             "per-source single_source calls; all results compared bit for bit (f64::to_bits, path lists); every "
             "fourth graph is additionally hammered by 8 reader threads while the parallel functions run. probe "
             "cases: the schedule rayon really used for an indexed map/collect is recorded and fed to the Coq model "
-            "(Run/RunPar.v), which must reproduce the collected vector and accept the schedule as a permutation. "
+            "(Run/RunPar.v), which must reproduce the collected vector and accept the schedule as a permutation; the "
+            "same probe then runs the region with FAILING items (item i panics with payload i iff xs[i] is divisible "
+            "by 7, low indices made slow) and the re-raised payload must be the lowest failing index, which is what "
+            "the model's region (gather_par under the reversed schedule, run_plan on a right-first plan) reports. "
             "non-trivial = graph above the threshold whose result has > 100 words, or a probe with >= 21 items; "
             "distinct = distinct case text. This part is exploration (testing), not proof.")
 
@@ -267,6 +272,16 @@ class ParProp(props.BaseProp):
                 if sorted(row) != list(range(len(c["xs"]))):
                     msgs.append("rayon %s source: the recorded schedule is not a permutation of the item indices "
                                 "(an item ran twice or not at all)" % which)
+            # failing items: the panic rayon re-raises is that of the LOWEST failing index (rayon::join's rule,
+            # the failure semantics of gather_par / run_plan in Model/ParFns.v)
+            if 63 not in by:
+                msgs.append("probe produced no failing-items observation")
+            else:
+                want_k = next((i for i, x in enumerate(c["xs"]) if x % 7 == 0), -1)
+                for which, k in zip(("Vec", "Range"), by[63][1][0]):
+                    if k != want_k:
+                        msgs.append("rayon %s source with failing items: the region re-raised the panic of item %d, "
+                                    "the serial loop (and the model) fail at item %d" % (which, k, want_k))
             return msgs
         ncalls = len([x for x in c["calls"] if not x.startswith("hammer")])
         rows = by[50][1] if 50 in by else []
@@ -347,37 +362,60 @@ class ParProp(props.BaseProp):
 
 C07 = props.register(ParProp())
 C07.manifest = {
-    "text": "PARTIAL by nature. Proved (Coq, unbounded, axiom-free): in a model of the rayon fragment the crate uses - an "
+    "text": "PART 1, generic (Coq, unbounded, axiom-free): in a model of the rayon fragment the crate uses - an "
             "indexed source, `map f`, `collect` into a Vec, where a schedule is the order in which the work items are "
             "executed (any splitting tree / stealing order) - the collected vector equals map f xs for EVERY schedule "
             "that is a permutation of the item indices and every pure f (C07_schedule_independent, "
-            "C07_two_schedules_agree); gathering in parallel and then post-processing sequentially equals the serial "
-            "path (C07_gather_then_post: all_pairs, multi_source, get_all_shortest_paths_involving through all_pairs); "
-            "gathering and then folding sequentially in index order equals the serial loop for an ARBITRARY combine, in "
-            "particular a non-associative floating-point accumulation (C07_gather_then_fold: betweenness, closeness) - "
-            "so both paths perform every floating-point operation in the same order, which is what bit-for-bit "
-            "equality needs. The hypotheses of that model are re-extracted from the current source tree on every run "
-            "(tools/gen_parsites.py -> Gen/ParSites.v: every rayon call site with its source kind, adaptor chain, "
-            "sink, consumption of the result, shared-state tokens in closures; crate-wide unsafe / interior-mutability "
-            "scan; node-count thresholds) and re-proved by vm_compute (C07_par_sites_ok, C07_par_sites_modelled): "
-            "exactly the four sites betweenness_centrality, closeness_centrality, all_pairs (via all_pairs_par_iter), "
-            "multi_source; indexed source, adaptors = {map}, collect into Vec, sequential consumption, no Mutex/atomic/"
-            "RefCell/unsafe anywhere in the crate, thresholds <= 20.",
-    "note": "NOT proved: rayon's implementation of the indexed collect, real work stealing and memory ordering (modelled "
-            "by run_par; a per-run probe records the schedule rayon really used and the Coq model must reproduce the "
-            "collected vector from it); that the closures handed to rayon are pure functions of (&Graph, item) - "
-            "supported by the source scan (no interior mutability, no unsafe => shared &Graph is race-free by Rust's "
-            "type system) but not derived from a model of the five algorithms. The per-function "
-            "`<fn>_parallel_eq_serial` theorems of DESIGN.md are given in generic form (arbitrary pure f, post, combine) "
-            "because the algorithm models belong to other work packages. EXPLORATION (testing, not proof), every run: "
-            "the five functions on random graphs of 21-60 nodes (120 in the thorough tier), unweighted / dyadic / "
-            "non-dyadic weights, inside ThreadPool::install for pool sizes 1,2,3,4,8,16 x 2 repetitions plus the global "
-            "pool, compared bit for bit (f64::to_bits, path lists) with each other, with the pool-size-1 run (serial "
-            "path) and with a serial reference built from per-source single_source calls; 8 threads hammering one "
-            "shared &Graph with read-only calls while the parallel functions run. A source change that leaves the "
-            "modelled fragment (reduce/sum/fold/for_each/par_bridge, unindexed source, collect into a map, a Mutex) "
-            "is reported as VIOLATION ... no-failing-input-found unless the exploration finds differing bits. "
-            "Axioms: none (Closed under the global context) for all 6 pinned theorems.",
-    "technique": "Coq proof about a schedule model of the rayon fragment + source-extracted hypotheses re-proved per "
-                 "run (vm_compute) + schedule-probe correspondence + bit-for-bit exploration on the implementation",
+            "C07_two_schedules_agree, C07_plan_independent); gather-then-post-process and gather-then-fold in index "
+            "order equal the serial path for an ARBITRARY post / combine (C07_gather_then_post, C07_gather_then_fold). "
+            "PART 2, PER FUNCTION (Model/ParFns.v, Proofs/ParFnsOk.v): BOTH arms of `match parallel` of multi_source, "
+            "all_pairs (all_pairs_iter / all_pairs_par_iter), get_all_shortest_paths_involving, betweenness_centrality "
+            "and closeness_centrality are transcribed on top of the per-source functions of the algorithm models "
+            "(Model/Dijkstra.v, Brandes.v, Closeness.v), with the arm and the schedule as arguments. For every graph "
+            "state, every argument tuple and EVERY schedule the parallel arm returns exactly the outcome of the serial "
+            "arm - Ok values, Err kinds and panics alike (C07_multi_source_/all_pairs_/involving_/betweenness_/"
+            "closeness_parallel_eq_serial; closeness also in the form `WF g -> schedule of 0..n-1`), and for every "
+            "thread count, through the `number_of_nodes() > 20 && current_num_threads() > 1` switch, the function "
+            "equals the algorithm model that the correspondence checks of C04 / C05 / C06 tie to the code "
+            "(C07_*_sched_unobservable). The proofs never unfold the per-source functions nor the combine functions "
+            "(accumulate_betweenness, HashMap insert): the fold order, hence the value, is the same in ANY number "
+            "structure, associative or not (C07_loop_shape_any_combine: combine universally quantified). Failing work "
+            "items (`.unwrap()` inside the closures): a work item is a function into outcomes; the region fails with "
+            "the failure of the LOWEST failing index, which is rayon::join's documented rule (`the first closure's "
+            "panic wins`; a split is join(lower, upper), a leaf runs in index order) - C07_region_plan_semantics proves "
+            "it for every fork-join plan, C07_region_with_failing_items for every schedule - and is what the serial loop "
+            "does. Without that rule (`the failing item executed first wins`, C07_pessimistic_region) success and the "
+            "value never depend on the schedule and the arms still agree whenever the failing items fail alike: "
+            "proved for all_pairs / involving on every well-formed adjacency (the only item failure is the unwrap at "
+            "dijkstra.rs:172: C07_all_pairs_pessimistic, C07_involving_pessimistic), for betweenness always "
+            "(C07_betweenness_pessimistic), for multi_source / closeness under the stated fail_alike hypothesis, which "
+            "holds when the per-source calls succeed (C07_multi_source_items_ok, from C04_model_single_source_names). "
+            "The hypotheses of the region model are re-extracted from the current source tree on every run "
+            "(tools/gen_parsites.py -> Gen/ParSites.v) and re-proved by vm_compute (C07_par_sites_ok, "
+            "C07_par_sites_modelled): exactly the four sites betweenness_centrality, closeness_centrality, all_pairs (via "
+            "all_pairs_par_iter), multi_source; indexed source, adaptors = {map}, collect into Vec, sequential "
+            "consumption, no Mutex/atomic/RefCell/unsafe anywhere in the crate, thresholds <= 20.",
+    "note": "NOT proved: rayon's implementation of the indexed collect and of join, real work stealing and memory "
+            "ordering (modelled by run_par / run_plan; per-run probes: the schedule rayon really used is recorded and "
+            "the Coq model must reproduce the collected vector from it, and - observation 63 - regions with FAILING "
+            "items, low indices made slow, must re-raise the panic of the lowest failing index, as the model's region "
+            "says, for pool sizes 1..16 and Vec / Range sources); that the Rust closures are the pure functions of "
+            "(&Graph, item) the models say - supported by the source scan (no interior mutability, no unsafe => shared "
+            "&Graph is race-free by Rust's type system) and by the correspondence checks of C04/C05/C06 on the "
+            "per-source models. The arms are hand transcriptions of dijkstra.rs:100-399,606, betweenness.rs:50-74, "
+            "closeness.rs:52-90; their Serial instances are PROVED equal to the correspondence-checked models "
+            "(closeness: up to the explicit HashMap inserts, collect_map). Hypotheses that remain: the schedule is a "
+            "permutation of the work items (needed: Example incomplete_schedule_differs); for closeness on an "
+            "arbitrary (incoherent) directed state the items are those of the reversed copy. EXPLORATION (testing, not "
+            "proof), every run: the five functions on random graphs of 21-60 nodes (120 in the thorough tier), "
+            "unweighted / dyadic / non-dyadic weights, inside ThreadPool::install for pool sizes 1,2,3,4,8,16 x 2 "
+            "repetitions plus the global pool, compared bit for bit (f64::to_bits, path lists) with each other, with "
+            "the pool-size-1 run (serial path) and with a serial reference built from per-source single_source calls; "
+            "8 threads hammering one shared &Graph with read-only calls while the parallel functions run. A source "
+            "change that leaves the modelled fragment (reduce/sum/fold/for_each/par_bridge, unindexed source, collect "
+            "into a map, a Mutex) is reported as VIOLATION ... no-failing-input-found unless the exploration finds "
+            "differing bits. Axioms: none (Closed under the global context) for all 28 pinned theorems.",
+    "technique": "Coq proof about a schedule / fork-join model of the rayon fragment and about both transcribed arms of "
+                 "the five functions + source-extracted hypotheses re-proved per run (vm_compute) + schedule-probe and "
+                 "panic-probe correspondence + bit-for-bit exploration on the implementation",
 }
